@@ -25,7 +25,7 @@ theorem lib_hcorr_of_size (f : Bytes) (hf : 224 * f.length + 202 < 2 ^ 32) :
   omega
 
 theorem size_of_lt_16M (f : Bytes) (hf : f.length < 2 ^ 24) :
-    224 * f.length + 202 < 2 ^ 32 ∧ f.length < 2 ^ 29 := by
+    224 * f.length + 202 < 2 ^ 32 ∧ f.length < 2 ^ 32 := by
   have e : (2 : Nat) ^ 32 = 4294967296 := by decide
   have e' : (2 : Nat) ^ 29 = 536870912 := by decide
   have e'' : (2 : Nat) ^ 24 = 16777216 := by decide
